@@ -38,8 +38,11 @@ pub struct BSM {}
 impl BSM {
 //@fn BSM::prepend_magic_bytes
 //@fn BSM::sign_impl
+//@wrapper BSM::sign_message @ src/bsm/mod.rs = BSM::sign_impl
 //@fn BSM::sign_with_k_impl
+//@wrapper BSM::sign_message_with_k @ src/bsm/mod.rs = BSM::sign_with_k_impl
 //@fn BSM::verify_message_impl
+//@wrapper BSM::verify_message @ src/bsm/mod.rs = BSM::verify_message_impl
 }
 } // verus!
 fn main() {}
